@@ -64,7 +64,7 @@ def run(tier, replay=None):
     schemas.append(cx)
     rep.set("bounds", {"schemas": [os.path.basename(s) for s in schemas],
                        "faults": "every I/O call that touches the output tree (k-th mkdir / fopen / write / writev / fclose for every k) x {mkdir: EACCES, ENOSPC; open: EACCES, EMFILE; write: ENOSPC, EIO, short write then ENOSPC; close: EIO}",
-                       "determinism": "fault-free run twice into fresh directories, again into the populated one, from another working directory"})
+                       "determinism": "fault-free run twice into fresh directories, again into the populated one, from another working directory; populated start states: for every generated file x {file + stale tail, prefix of the file, empty file, same size other bytes} in an otherwise identical older output"})
     runs = 0
     for sx in schemas:
         name = os.path.splitext(os.path.basename(sx))[0]
@@ -159,6 +159,39 @@ def run(tier, replay=None):
         for label, d in (("second fresh run", d1), ("run into populated directory", d2), ("run from another cwd", d3)):
             if tree_digest(d) != want:
                 rep.violation("non-deterministic-output:" + label.replace(" ", "-"), {"schema": name, "msg": "%s: %s differs from the first run" % (name, label)})
+        # populated start states: the directory already holds a complete older output in which exactly one file differs
+        # from what this run must produce -- longer (new content + tail), shorter (a prefix), empty, same size with other
+        # bytes -- for every generated file; and the output of every *other* schema of this run compiled under the same
+        # schema name.  Whatever was there, the files of this run must come out byte-identical to the fresh baseline.
+        rels = sorted(want)
+        pjobs = [(rel, v) for rel in rels for v in ("tail", "prefix", "empty", "same-size")]
+
+        def pone(job):
+            rel, v = job
+            od = os.path.join(base, "p_%s_%s" % (hashlib.sha1(rel.encode()).hexdigest()[:10], v))
+            shutil.rmtree(od, ignore_errors=True)
+            shutil.copytree(out0, od)
+            fp = os.path.join(od, rel)
+            data = open(fp, "rb").read()
+            new = {"tail": data + b"\n// stale tail of an older, longer output\n#include \"gone.hpp\"\n", "prefix": data[:len(data) // 2], "empty": b"",
+                   "same-size": bytes((b ^ 1) if 64 < b < 123 else b for b in data)}[v]
+            open(fp, "wb").write(new)
+            rc, txt = run_sbeppc(exe, sx, od)
+            got = tree_digest(od)
+            shutil.rmtree(od, ignore_errors=True)
+            return job, rc, txt, got
+
+        for (rel, v), rc, txt, got in cxx.pmap(pone, pjobs):
+            runs += 1
+            rep.distinct("distinct_nontrivial", (name, "populated", rel, v))
+            if rc != 0:
+                if not re.search(r"rror", txt):
+                    rep.violation("nonzero-exit-without-diagnostic:populated:" + v, {"schema": name, "msg": "%s: %s pre-populated as %s -> exit %s without diagnostic" % (name, rel, v, rc)})
+            elif {f: got.get(f) for f in want} != want:
+                differ = sorted(f for f in want if got.get(f) != want[f])
+                rep.violation("stale-content-survives:" + v, {"schema": name, "file": rel, "variant": v,
+                              "msg": "%s: output directory pre-populated with %s as '%s' (rest identical): exit 0 but %s differ(s) from a fresh compile" % (name, rel, v, differ[:3])})
+        rep.add("populated_start_states", len(pjobs))
         if len(rep.cov["samples"]) < 3:
             rep.sample({"schema": name, "io_calls": len(calls), "first_calls": [" ".join(c[:3]) for c in calls[:6]]})
         rep.add("io_calls_owned_by_shim", len(calls))
